@@ -46,3 +46,42 @@ def project_tagged(t, unit=1.0):
 
 def ids_ok(t):
     return [int(i) for i in t.id()] == list(range(len(t.id())))
+
+
+def place_by_edge_len(P, el):
+    """positions such that |pos[i]-pos[parent]| = el[i] exactly (axis steps)"""
+    n = len(P)
+    pos = [None] * n
+    order = sorted(range(n), key=lambda i: depth(P, i))
+    for i in order:
+        if P[i] == -1:
+            pos[i] = (0.0, 0.0, 0.0)
+        else:
+            p = list(pos[P[i]])
+            p[i % 3] += float(el[i]) * (1 if i % 2 else -1)
+            pos[i] = tuple(p)
+    return pos
+
+
+def depth(P, i):
+    d = 0
+    while P[i] != -1:
+        i = P[i]; d += 1
+    return d
+
+
+def default_attr(n):
+    return [[2 + i % 3, (7 * i) % 5, (3 * i) % 4, 1 + i % 3] for i in range(n)]
+
+
+def mk_tree_len(P, el, attr=None):
+    """tree whose edge into node i has exact length el[i]; identity carried by the extra column 'tag'"""
+    from swcgeom.core import Tree
+    n = len(P)
+    attr = attr or default_attr(n)
+    pos = place_by_edge_len(P, el)
+    return Tree(n, id=np.arange(n, dtype=np.int32), pid=np.array(P, dtype=np.int32),
+                type=np.array([a[0] for a in attr], dtype=np.int32),
+                x=np.array([p[0] for p in pos], dtype=np.float32), y=np.array([p[1] for p in pos], dtype=np.float32),
+                z=np.array([p[2] for p in pos], dtype=np.float32), r=np.array([a[3] for a in attr], dtype=np.float32),
+                tag=np.arange(n, dtype=np.int32) + 100), pos
